@@ -10,17 +10,36 @@ _TCACHE = {}
 class Ctx:
     """Everything a rule needs about one elaborate() body."""
 
-    def __init__(self, idx, fi, extra_bits=()):
+    def __init__(self, idx, fi, extra_bits=(), no_inline=()):
         self.idx = idx
         self.fi = fi
-        self.t = dsl.extract(fi, idx)
+        self.t = dsl.extract(fi, idx, no_inline=no_inline)
         self.nctx = self.t.ctx(idx.enums, property_aliases(idx, fi.cls))
         self.w = dl.Widths(idx, fi.cls, self.t, extra_bits)
         self.eng = dl.Engine(self.w, self.nctx)
-        self.groups, self.tir = dl.group_drivers(self.t, self.nctx)
+        self.groups, self.tir = {}, {}
+        for d in self.t.drivers:
+            tn = self.norm(d.target)
+            key = (d.domain, ir.show(tn))
+            self.groups.setdefault(key, []).append(d)
+            self.tir[key] = tn
 
     def norm(self, e):
-        return ir.norm(e, self.nctx)
+        e = ir.norm(e, self.nctx)
+        if ir.contains(e, lambda x: x[0] == 'last'):
+            e = ir.norm(ir.subst(e, self._last), self.nctx)
+        return e
+
+    def _last(self, x):
+        """A loop index used after its loop denotes the last element: hi - 1 of a range, len(E) - 1 of a sequence."""
+        if x[0] == 'last' and x[1][0] == 'idx':
+            L = self.t.loops.get(x[1][1])
+            if L is not None and not L.reversed:
+                if L.kind == 'range':
+                    return ('bin', '-', L.bounds[1], ('const', 1))
+                if L.kind in ('enum', 'seq') and L.seq is not None:
+                    return ('bin', '-', ('call', ('name', 'len'), (L.seq,), ()), ('const', 1))
+        return None
 
     def show(self, e):
         return ir.show(self.norm(e))
@@ -226,8 +245,8 @@ def find_init_assign(cls, attr):
 class CtorCtx(Ctx):
     """The same symbolic walk applied to a constructor: gives local aliases, stores to self and calls."""
 
-    def __init__(self, idx, fi):
-        super().__init__(idx, fi)
+    def __init__(self, idx, fi, no_inline=()):
+        super().__init__(idx, fi, no_inline=no_inline)
         self.stores = {}
         for c in self.t.calls:
             e = c[0]
@@ -248,12 +267,12 @@ class CtorCtx(Ctx):
         return out
 
 
-def get_fn(idx, spec, kind=None):
+def get_fn(idx, spec, kind=None, no_inline=()):
     """Symbolic walk of an arbitrary function (stores, calls, returns, local aliases)."""
     fi = idx.find_func(spec, kind) if isinstance(spec, str) else spec
-    key = (id(idx), fi.site, 'fn', kind)
+    key = (id(idx), fi.site, 'fn', kind, tuple(no_inline))
     if key not in _TCACHE:
-        _TCACHE[key] = CtorCtx(idx, fi)
+        _TCACHE[key] = CtorCtx(idx, fi, no_inline)
     return _TCACHE[key]
 
 
@@ -290,3 +309,97 @@ def show_roles(c, e, env):
                 return ('name', k)
         return None
     return ir.show(ir.subst(e, f))
+
+
+# ---- symbolic refusal conditions --------------------------------------------------------------------------
+def raise_sites(c, depth=1):
+    """[(path-condition IRs [(cond, polarity)], exc, loop ids, lineno, via)] for every `raise` of the walked function and
+    of same-class helpers it calls as plain statements (one level), with the helper's parameters substituted."""
+    out = []
+    for exc, gen, ln in c.t.raises:
+        conds = [(c.norm(fr[1]), fr[2]) for fr in gen if fr[0] == 'pyif']
+        loops = [fr[1] for fr in gen if fr[0] == 'for']
+        out.append((conds, exc, loops, ln, None))
+    if depth > 0 and c.fi.cls is not None:
+        for e, gen, dsl_, ln in c.t.calls:
+            if e[0] != 'call' or e[1][0] != 'attr' or e[1][1] != ('name', 'self'):
+                continue
+            target = c.idx.lookup_method(c.fi.cls, e[1][2])
+            if target is None or target.node is c.fi.node:
+                continue
+            h = get_fn(c.idx, target)
+            params = [p for p in target.params if p != 'self']
+            binding = dict(zip(params, e[2]))
+            for k, v in e[3]:
+                binding[k] = v
+
+            def sub(x, binding=binding):
+                return ir.subst(x, lambda y: binding.get(y[1]) if y[0] == 'name' and y[1] in binding else None)
+            outer = [(c.norm(fr[1]), fr[2]) for fr in gen if fr[0] == 'pyif']
+            for conds, exc, loops, hln, _ in raise_sites(h, depth - 1):
+                out.append((outer + [(c.norm(sub(cd)), p) for cd, p in conds], exc, [], ln, target.site))
+    return out
+
+
+def _formula(c, conds):
+    parts = []
+    for cd, pol in conds:
+        f = c.eng.cond(cd)
+        parts.append(f if pol else dl.f_not(f))
+    return dl.f_and(*parts)
+
+
+def literal_loop(c, values):
+    """Element IR of a loop over a literal collection holding exactly `values` (e.g. {"err", "rty"}), or None."""
+    for L in c.t.loops.values():
+        it = c.norm(L.iter)
+        if it[0] in ('set', 'tuple', 'list') and sorted(x[1] for x in it[1] if x[0] == 'const') == sorted(values) and \
+                len(it[1]) == len(values):
+            if L.kind == 'seq':
+                return ('sub', L.seq, ('idx', L.id)), L.id
+            return ('item', L.id, ()), L.id
+    return None, None
+
+
+def refuses(c, cond_texts, exc=None, env=None, loop_values=None):
+    """Is there a raise (of type exc) whose path condition is equivalent to one of cond_texts?
+
+    Returns (True/False, detail).  Conditions are compared as Boolean functions by truth table, so De Morgan, operand
+    order, nesting of ifs, `continue`-style guards and extraction into a same-class helper make no difference."""
+    env = dict(env or {})
+    lid = None
+    if loop_values is not None:
+        elem, lid = literal_loop(c, loop_values)
+        if elem is None:
+            return False, f"no loop over the literal collection {sorted(loop_values)}"
+        env["v"] = elem
+    wants = []
+    for t in ([cond_texts] if isinstance(cond_texts, str) else cond_texts):
+        wants.append(c.eng.cond(c.parse(t, env)))
+    sites = []
+    for conds, e, loops, ln, via in raise_sites(c):
+        if lid is not None and lid not in loops and via is None:
+            continue
+        try:
+            sites.append((_formula(c, conds), e, ln, via))
+        except Undecided:
+            continue
+    anyraise = dl.f_or(*[f for f, e, ln, via in sites]) if sites else dl.F
+    for w in wants:
+        try:
+            # (1) whenever the condition holds, the call is refused (by this or an earlier refusal)
+            if not dl.implies(c.eng, w, anyraise)[0]:
+                continue
+            # (2) a raise of the promised type exists whose path condition entails the condition
+            for f, e, ln, via in sites:
+                if (exc is None or e == exc) and f != dl.F and dl.implies(c.eng, f, w)[0] and not dl.equivalent(c.eng, f, dl.F)[0]:
+                    return True, f"raise {e} at line {ln}" + (f" (in {via})" if via else "")
+        except Undecided:
+            continue
+    return False, f"no `raise {exc or ''}` is guarded by a condition equivalent to `{cond_texts if isinstance(cond_texts, str) else cond_texts[0]}`"
+
+
+def check_refusal(rep, rule, c, what, cond_texts, exc, env=None, loop_values=None):
+    ok, detail = refuses(c, cond_texts, exc, env, loop_values)
+    rep.check(ok, rule, c.fi.site, what, detail)
+    return ok
